@@ -1,0 +1,128 @@
+//go:build verif
+
+// Contracts for package qrcode/decoder, read by the govc verification-condition generator in /verif.
+// Comments only.
+
+package decoder
+
+// ---------------------------------------------------------------- ISO/IEC 18004 structure of the version table
+//
+// rawModules(v): data modules of a version-v symbol by the standard's closed form
+// (all modules minus finder/separator/timing/format, alignment patterns, version information).
+
+//@ spec func numAlign(v int) int = v < 2 ? 0 : v/7 + 2
+//@ spec func rawModules(v int) int = (16*v + 128)*v + 64 - (v < 2 ? 0 : (25*numAlign(v) - 10)*numAlign(v) - 55) - (v < 7 ? 0 : 36)
+//@ spec func ecbGroups(ver *Version, l int) int = len(ver.ecBlocks[l].ecBlocks)
+//@ spec func grpCount(ver *Version, l int, g int) int = ver.ecBlocks[l].ecBlocks[g].count
+//@ spec func grpData(ver *Version, l int, g int) int = ver.ecBlocks[l].ecBlocks[g].dataCodewords
+//@ spec func ecPer(ver *Version, l int) int = ver.ecBlocks[l].ecCodewordsPerBlock
+//@ spec func blockSum(ver *Version, l int) int = grpCount(ver, l, 0)*(grpData(ver, l, 0) + ecPer(ver, l)) + (ecbGroups(ver, l) == 2 ? grpCount(ver, l, 1)*(grpData(ver, l, 1) + ecPer(ver, l)) : 0)
+//@ spec func dataCap(ver *Version, l int) int = grpCount(ver, l, 0)*grpData(ver, l, 0) + (ecbGroups(ver, l) == 2 ? grpCount(ver, l, 1)*grpData(ver, l, 1) : 0)
+
+// every version entry: number in order, four levels, total codewords = raw modules / 8 by the standard's formula,
+// and at every level the block structure adds up to exactly that total (NewVersion derives the total from level L only)
+//@ lemma versionStructure(v int, l int)
+//@   property C07 C13
+//@   globals VERSIONS
+//@   opt nia=on
+//@   proof cases v 1 40, l 0 3
+//@   ensures len(VERSIONS) == 40 && VERSIONS[v-1] != nil && VERSIONS[v-1].versionNumber == v && len(VERSIONS[v-1].ecBlocks) == 4
+//@   ensures VERSIONS[v-1].totalCodewords == rawModules(v)/8
+//@   ensures 1 <= ecbGroups(VERSIONS[v-1], l) && ecbGroups(VERSIONS[v-1], l) <= 2 && grpCount(VERSIONS[v-1], l, 0) >= 1 && ecPer(VERSIONS[v-1], l) >= 7
+//@   ensures blockSum(VERSIONS[v-1], l) == VERSIONS[v-1].totalCodewords
+//@   ensures ecbGroups(VERSIONS[v-1], l) == 2 ==> grpData(VERSIONS[v-1], l, 1) == grpData(VERSIONS[v-1], l, 0) + 1 && grpCount(VERSIONS[v-1], l, 1) >= 1
+
+// dataCap2: the data capacity as the encoder computes it (total codewords minus all error-correction codewords)
+//@ spec func dataCap2(ver *Version, l int) int = ver.totalCodewords - ecPer(ver, l) * (grpCount(ver, l, 0) + (ecbGroups(ver, l) == 2 ? grpCount(ver, l, 1) : 0))
+//@ lemma dataCapAgree(v int, l int)
+//@   property C13 C07
+//@   globals VERSIONS
+//@   opt nia=on
+//@   proof cases v 1 40, l 0 3
+//@   ensures dataCap2(VERSIONS[v-1], l) == dataCap(VERSIONS[v-1], l)
+
+// data capacity strictly decreases L > M > Q > H (table order of ecBlocks is L, M, Q, H) and strictly increases with the version
+//@ lemma capacityOrder(v int, l int)
+//@   property C07 C13
+//@   globals VERSIONS
+//@   opt nia=on
+//@   proof cases v 1 40, l 0 3
+//@   ensures l < 3 ==> dataCap(VERSIONS[v-1], l) > dataCap(VERSIONS[v-1], l+1)
+//@   ensures v < 40 ==> dataCap(VERSIONS[v-1], l) < dataCap(VERSIONS[v], l)
+
+// published anchor capacities (ISO/IEC 18004 table 7): data codewords of 1-L, 1-H, 40-L, 40-H
+//@ lemma capacityAnchors()
+//@   property C07 C13
+//@   globals VERSIONS
+//@   opt nia=on
+//@   ensures dataCap(VERSIONS[0], 0) == 19 && dataCap(VERSIONS[0], 3) == 9 && dataCap(VERSIONS[39], 0) == 2956 && dataCap(VERSIONS[39], 1) == 2334 && dataCap(VERSIONS[39], 2) == 1666 && dataCap(VERSIONS[39], 3) == 1276
+
+// alignment pattern centres: count v/7+2 (none for version 1), first 6, last 4v+10, strictly increasing, even step except the first gap
+//@ lemma alignmentCentres(v int)
+//@   property C07
+//@   globals VERSIONS
+//@   proof cases v 1 40
+//@   let c = VERSIONS[v-1].alignmentPatternCenters
+//@   ensures len(c) == numAlign(v)
+//@   ensures v >= 2 ==> c[0] == 6 && c[len(c)-1] == 4*v + 10
+//@   ensures forall k int :: 1 <= k && k < len(c) ==> c[k-1] < c[k]
+//@   ensures forall k int :: 2 <= k && k < len(c) ==> c[k] - c[k-1] == c[len(c)-1] - c[len(c)-2] && (c[k] - c[k-1]) % 2 == 0
+
+// ---------------------------------------------------------------- BCH protected format and version words
+
+// gf2rem(r, poly, i, deg): remainder of r modulo poly over GF(2), clearing bits i .. deg from the top
+//@ spec func gf2rem(r int, poly int, i int, deg int) int = i < deg ? r : gf2rem(((r >> uint(i)) & 1 == 1) ? r ^ (poly << uint(i - deg)) : r, poly, i - 1, deg)
+
+//@ lemma formatWords(i int)
+//@   property C07 C05
+//@   globals formatInfoDecodeLookup, formatInfoMaskQR
+//@   opt fuel=8
+//@   proof cases i 0 31
+//@   ensures len(formatInfoDecodeLookup) == 32 && len(formatInfoDecodeLookup[i]) == 2 && formatInfoMaskQR == 0x5412
+//@   ensures int(formatInfoDecodeLookup[i][1]) == i
+//@   ensures int(formatInfoDecodeLookup[i][0]) == ((i << 10) | gf2rem(i << 10, 0x537, 14, 10)) ^ 0x5412
+
+//@ lemma versionWords(i int)
+//@   property C07 C05
+//@   globals VERSION_DECODE_INFO
+//@   opt fuel=8
+//@   proof cases i 0 33
+//@   ensures len(VERSION_DECODE_INFO) == 34
+//@   ensures VERSION_DECODE_INFO[i] == ((i + 7) << 12) | gf2rem((i + 7) << 12, 0x1f25, 17, 12)
+
+// ---------------------------------------------------------------- error tolerance of the BCH words (C05)
+// minimum distance of the 32 format words is 7 and of the 34 version words is 8, so up to three flipped bits
+// leave the original word the unique nearest one
+
+//@ lemma formatDistance(i int, j int)
+//@   property C05
+//@   globals formatInfoDecodeLookup
+//@   proof cases i 0 31, j 0 31
+//@   requires i < j
+//@   ensures hamming(int(formatInfoDecodeLookup[i][0]), int(formatInfoDecodeLookup[j][0]), 15) >= 7
+
+//@ lemma versionDistance(i int, j int)
+//@   property C05
+//@   globals VERSION_DECODE_INFO
+//@   proof cases i 0 33, j 0 33
+//@   requires i < j
+//@   ensures hamming(VERSION_DECODE_INFO[i], VERSION_DECODE_INFO[j], 18) >= 8
+
+// ---------------------------------------------------------------- ECBlocks accessors
+
+//@ spec func nblocks(b *ECBlocks) int = b.ecBlocks[0].count + (len(b.ecBlocks) == 2 ? b.ecBlocks[1].count : 0)
+
+//@ func (b *ECBlocks) GetNumBlocks() (r int)
+//@   property C13 C07
+//@   requires 1 <= len(b.ecBlocks) && len(b.ecBlocks) <= 2
+//@   ensures r == nblocks(b)
+//@   modifies nothing
+//@   loop 0: invariant -1 <= rangeindex && rangeindex < len(b.ecBlocks)
+//@   loop 0: invariant total == (rangeindex >= 0 ? b.ecBlocks[0].count : 0) + (rangeindex >= 1 ? b.ecBlocks[1].count : 0)
+//@   loop 0: decreases len(b.ecBlocks) - rangeindex
+
+//@ func (b *ECBlocks) GetTotalECCodewords() (r int)
+//@   property C13 C07
+//@   requires 1 <= len(b.ecBlocks) && len(b.ecBlocks) <= 2
+//@   ensures r == b.ecCodewordsPerBlock * nblocks(b)
+//@   modifies nothing
